@@ -263,12 +263,12 @@ theorem mergedAll_prefix {layers : List Map} (hs : ∀ m ∈ layers, Sorted m) (
     mergedAll layers pfx none rev = ordered rev (withPrefix (mergeMaps layers) pfx) := by
   rw [mergedAll_eq hs, range_prefix _ hq]
 
-theorem listEntriesMerged_spec {layers : List Map} (hs : ∀ m ∈ layers, Sorted m) (h2 : 2 ≤ layers.length)
+theorem listEntriesMerged_spec {layers : List Map} (hs : ∀ m ∈ layers, Sorted m)
     (pfx key : Bytes) (count dir : Nat) (hq : prefixUpper pfx ≠ some emptyValue) :
     listEntriesMerged layers pfx key count dir
       = some (takeC count 0 (live (remaining (ordered (!isASC dir) (withPrefix (mergeMaps layers) pfx))
           (!isASC dir) key))) := by
-  have R := mergedRangeCursor hs h2 pfx none (!isASC dir)
+  have R := mergedRangeCursor hs pfx none (!isASC dir)
   rw [mergedAll_prefix hs pfx _ hq] at R
   have hf : (ordered (!isASC dir) (withPrefix (mergeMaps layers) pfx)).length < layersSize layers + 2 := by
     rw [length_ordered]
@@ -282,10 +282,10 @@ theorem listEntriesMerged_spec {layers : List Map} (hs : ∀ m ∈ layers, Sorte
   · simp only [hk, Bool.false_eq_true, if_false]
     exact R.iteratorScan_spec hf key count
 
-theorem countMerged_spec {layers : List Map} (hs : ∀ m ∈ layers, Sorted m) (h2 : 2 ≤ layers.length)
+theorem countMerged_spec {layers : List Map} (hs : ∀ m ∈ layers, Sorted m)
     (pfx : Bytes) (hq : prefixUpper pfx ≠ some emptyValue) :
     countMerged layers pfx = some (live (withPrefix (mergeMaps layers) pfx)).length := by
-  have R := mergedRangeCursor hs h2 pfx none true
+  have R := mergedRangeCursor hs pfx none true
   rw [mergedAll_prefix hs pfx _ hq] at R
   have hf : (ordered true (withPrefix (mergeMaps layers) pfx)).length < layersSize layers + 2 := by
     rw [length_ordered]
@@ -297,14 +297,14 @@ theorem countMerged_spec {layers : List Map} (hs : ∀ m ∈ layers, Sorted m) (
   simp [ordered, live, List.filter_reverse]
 
 /-- the complete `List` answer over the merged view. -/
-theorem listMerged_spec {layers : List Map} (hs : ∀ m ∈ layers, Sorted m) (h2 : 2 ≤ layers.length)
+theorem listMerged_spec {layers : List Map} (hs : ∀ m ∈ layers, Sorted m)
     (pfx key : Bytes) (count dir : Nat) (hq : prefixUpper pfx ≠ some emptyValue) :
     listMerged layers pfx key count dir
       = some (listSpec (fun rev => ordered rev (withPrefix (mergeMaps layers) pfx)) key count dir) := by
   unfold listMerged
   apply list_spec_of_cursors (inv := MInv) (rest := MIter.rest)
   · intro rev
-    have R := mergedRangeCursor hs h2 pfx none rev
+    have R := mergedRangeCursor hs pfx none rev
     rw [mergedAll_prefix hs pfx rev hq] at R
     exact R
   · intro rev
